@@ -7,9 +7,10 @@ Open Scope list_scope.
 
 Record fview := {
   fv_chain : list frole;          (* the __wrapped__ chain, outermost first *)
-  fv_pre : list (list Z);         (* ids of the preconditions found through find_checker, by group *)
+  fv_pre : list (list Z);         (* ids of the preconditions on the wrapper that enforces them, by group *)
   fv_snaps : list Z;
-  fv_post : list Z }.
+  fv_post : list Z;
+  fv_intro : bool }.              (* [find_checker] - the introspection interface - returns that very wrapper *)
 
 Definition view_func (w : world) (f : nat) : fview :=
   let roles := flat_map (fun i => match get_func w i with Some fo => [fo_role fo] | None => [] end) (chain w f) in
@@ -20,10 +21,11 @@ Definition view_func (w : world) (f : nat) : fview :=
           {| fv_chain := roles;
              fv_pre := match fo_pre fo with Some r => map (map cid) (groups_of w r) | None => [] end;
              fv_snaps := match fo_snaps fo with Some r => map sid (snapshots_of w r) | None => [] end;
-             fv_post := match fo_post fo with Some r => map cid (contracts_of w r) | None => [] end |}
-      | None => {| fv_chain := roles; fv_pre := []; fv_snaps := []; fv_post := [] |}
+             fv_post := match fo_post fo with Some r => map cid (contracts_of w r) | None => [] end;
+             fv_intro := true |}
+      | None => {| fv_chain := roles; fv_pre := []; fv_snaps := []; fv_post := []; fv_intro := true |}
       end
-  | None => {| fv_chain := roles; fv_pre := []; fv_snaps := []; fv_post := [] |}
+  | None => {| fv_chain := roles; fv_pre := []; fv_snaps := []; fv_post := []; fv_intro := true |}
   end.
 
 Inductive mview :=
@@ -109,7 +111,8 @@ Definition fview_eqb (a b : fview) : bool :=
   list_eqb frole_eqb (fv_chain a) (fv_chain b)
   && list_eqb (list_eqb Z.eqb) (fv_pre a) (fv_pre b)
   && list_eqb Z.eqb (fv_snaps a) (fv_snaps b)
-  && list_eqb Z.eqb (fv_post a) (fv_post b).
+  && list_eqb Z.eqb (fv_post a) (fv_post b)
+  && Bool.eqb (fv_intro a) (fv_intro b).
 
 Definition mkind_eqb (a b : mkind) : bool :=
   match a, b with
